@@ -8,6 +8,7 @@ import (
 	"path/filepath"
 	"regexp"
 	"runtime"
+	"runtime/pprof"
 	"sort"
 	"strconv"
 	"strings"
@@ -43,7 +44,13 @@ func main() {
 	known := flag.String("known", "", "known findings file")
 	noReplay := flag.Bool("noreplay", false, "do not try to replay counterexamples")
 	forceArith := flag.String("arith", "", "force arithmetic mode (bv|int) for all functions (experiments)")
+	cpuprof := flag.String("cpuprofile", "", "write cpu profile")
 	flag.Parse()
+	if *cpuprof != "" {
+		f, _ := os.Create(*cpuprof)
+		pprof.StartCPUProfile(f)
+		defer pprof.StopCPUProfile()
+	}
 
 	t0 := time.Now()
 	seed := 0
@@ -130,9 +137,9 @@ func main() {
 	} else {
 		os.MkdirAll(dir, 0o755)
 	}
-	timeout := 10 * time.Second
+	timeout := 20 * time.Second
 	if *tier == "thorough" {
-		timeout = 60 * time.Second
+		timeout = 120 * time.Second
 	}
 	if *timeoutS > 0 {
 		timeout = time.Duration(*timeoutS) * time.Second
@@ -189,8 +196,8 @@ func main() {
 	}
 	if *verbose {
 		for _, ob := range e.obligations {
-			if ob.Time > 2 {
-				fmt.Printf("  slow %.1fs %s %s [%s] %s\n", ob.Time, ob.Status, ob.Name, ob.Solver, ob.Text)
+			if ob.Time > 2 || (ob.Status != "unsat" && !ob.Cover) {
+				fmt.Printf("  slow %.1fs %s %s [%s] %s {%s} path=%s\n", ob.Time, ob.Status, ob.Name, ob.Solver, ob.Text, filepath.Base(ob.SMT), ob.Path)
 			}
 		}
 	}
@@ -237,6 +244,9 @@ func main() {
 	if len(jobs) == 0 {
 		fmt.Printf("ENGINE-ERROR: no function under contract serves property %q\n", *prop)
 		exit = 2
+	}
+	if *verbose {
+		fmt.Printf("  smt build time %.1fs\n", buildTime.Seconds())
 	}
 	wall := time.Since(t0).Seconds()
 	fmt.Printf("govc: property=%s tier=%s functions=%d obligations=%d (distinct %d) discharged=%d failed=%d solver_time=%.1fs wall=%.1fs\n",
@@ -307,6 +317,9 @@ func main() {
 			fmt.Fprintln(os.Stderr, err)
 			os.Exit(2)
 		}
+	}
+	if *cpuprof != "" {
+		pprof.StopCPUProfile()
 	}
 	os.Exit(exit)
 }
